@@ -6,6 +6,7 @@ import (
 	"crypto/sha256"
 	"encoding/base64"
 	"fmt"
+	"math"
 	"net/http"
 	"net/http/httptest"
 	"net/url"
@@ -53,8 +54,9 @@ type c18Spec struct {
 	Root         string  `json:"root,omitempty"` // "" = samlp:LogoutResponse | LogoutRequest | Response | wrong-ns | no-ns
 	ID           string  `json:"id"`
 	InResponseTo string  `json:"irt,omitempty"`
-	IssueMs      int64   `json:"issue_ms"`             // relative to the issuing moment
-	IssueMode    string  `json:"issue_mode,omitempty"` // "" | absent | empty | garbage
+	IssueMs      int64   `json:"issue_ms"`               // relative to the issuing moment
+	IssueMode    string  `json:"issue_mode,omitempty"`   // "" | absent | empty | garbage | ancient-wrap (delivery time - 2^64 ns - 30 s: where 64-bit nanosecond arithmetic wraps round to "30 s ago") | year-1700 | year-1000 | year-0001
+	IssueRefMs   int64   `json:"issue_ref_ms,omitempty"` // ancient-wrap: the delivery delay the instant is computed against
 	TimeForm     int     `json:"time_form,omitempty"`
 	Destination  *string `json:"destination"`            // nil: attribute absent
 	Issuer       *string `json:"issuer"`                 // nil: element absent
@@ -273,10 +275,10 @@ func c18Defect(g *Rng, k c18Knobs, st *c18Step, s *c18Spec, dim string) {
 			s.SignKey = 3
 			st.Intent = append(st.Intent, "signature:encryption-cert-key")
 		case 3:
-			if k.Trust == "md2" || k.Trust == "pinned" {
+			if k.Trust == "md2" || (k.Trust == "pinned" && g.Bool(0.4)) {
 				s.SignKey = 4
 			} else {
-				s.SignKey = 1
+				s.SignKey = 1 // under a pinned certificate: the key of the certificate the metadata lists
 			}
 			st.Intent = append(st.Intent, "signature:other-untrusted-key")
 		case 4:
@@ -418,8 +420,12 @@ func c18Defect(g *Rng, k c18Knobs, st *c18Step, s *c18Spec, dim string) {
 			st.Intent = append(st.Intent, "issuer:"+lab)
 		}
 	case "freshness":
-		how := g.PickW(30, 14, 14, 14, 8, 5, 5, 5, 5)
+		how := g.PickW(30, 14, 14, 14, 8, 5, 5, 5, 5, 8)
 		switch how {
+		case 9:
+			s.IssueMode = Pick(g, "ancient-wrap", "ancient-wrap", "year-1700", "year-1000", "year-0001")
+			s.IssueRefMs = st.DelayMs
+			st.Intent = append(st.Intent, "freshness:issue-instant-"+s.IssueMode)
 		case 0, 1, 2, 3, 4:
 			cls := []string{"out-1ms", "half-out", "far-out", "x10-in", "edge"}[how]
 			s.IssueMs = st.DelayMs - k.MaxIssueDelayMs + c18Margin(g, k.MaxIssueDelayMs, cls)
@@ -682,9 +688,8 @@ func (m *c18Model) sigClause() (int, string) {
 	case m.corruptSV || m.corruptDV:
 		return c18Bad, "signature-corrupted"
 	case !c18Trusted(m.k, m.signer):
-		if m.k.Trust == "pinned" && m.signer == 1 {
-			return c18Open, "pinned-certificate-vs-metadata-certificate"
-		}
+		// a pinned certificate is THE IdP certificate ("IDPCertificate to use as idp public certificate"): what the metadata
+		// lists beside it is not trusted (the same reading as in the C01 profile)
 		return c18Bad, "untrusted-key"
 	}
 	// signed by a trusted key, intact
@@ -817,6 +822,15 @@ func c18Build(k c18Knobs, st *c18Step, m *c18Model, t0 time.Time) []byte {
 		el.CreateAttr("IssueInstant", "")
 	case "garbage":
 		el.CreateAttr("IssueInstant", "yesterday at noon")
+	case "ancient-wrap":
+		at := t0.Add(ms(s.IssueRefMs)).Add(math.MinInt64).Add(math.MinInt64).Add(-30 * time.Second)
+		el.CreateAttr("IssueInstant", at.UTC().Format("2006-01-02T15:04:05.999999999Z"))
+	case "year-1700":
+		el.CreateAttr("IssueInstant", "1700-01-01T00:00:00Z")
+	case "year-1000":
+		el.CreateAttr("IssueInstant", "1000-06-15T12:00:00Z")
+	case "year-0001":
+		el.CreateAttr("IssueInstant", "0001-01-01T00:00:00Z")
 	}
 	if s.Destination != nil && *s.Destination == "" {
 		el.CreateAttr("Destination", "")
@@ -1472,7 +1486,7 @@ func init() {
 			"the freshness check reads time.Now(); in the bubble this is the simulated clock, and no SP clock skew is modelled for this path",
 			"a Signature element that is not a child of the root element is not an enveloped signature of the response (SAML schema position)",
 			"signing keys are RSA-2048 (fixtures); signature methods RSA-SHA1/256/512",
-			"trusted-key signatures whose KeyInfo names a different certificate, KeyInfo-less signatures under fingerprint-only trust, and a metadata certificate superseded by a pinned certificate are declared don't-care",
+			"trusted-key signatures whose KeyInfo names a different certificate and KeyInfo-less signatures under fingerprint-only trust are declared don't-care; under a pinned certificate the metadata's certificates are not trusted",
 			"byte noise on a valid response is checked for totality only (error or valid are both admitted, a panic is a violation): whether a drawn byte position carries meaning is not decidable from the plan",
 			"a deflate bomb counts as inflated when the call allocates at least the inflated size (runtime.MemStats.TotalAlloc)",
 		},
